@@ -24,3 +24,4 @@ open Emboss.Tok
 #print axioms C10_word_tokens_are_maximal_runs
 #print axioms C10_tokenize_line_eq_spec
 #print axioms C10_tokenize_line_eq_documented_spec
+#print axioms C10_concat_with_blank
